@@ -12,7 +12,7 @@ func init() {
 		ID:          "C11",
 		Run:         runC11,
 		MinObl:      11,
-		Explanation: "Decided: R1 matcher shape — MatchRedirectURIWithClientRedirectURIs returns a non-nil URL only if (raw==\"\" ∧ exactly one registered URI ∧ it parses ∧ IsValidRedirectURI) or (raw≠\"\" ∧ some registered URI b with b == raw (string equality) or the loopback rule: scheme==http ∧ IsLoopback(ParseIP(host)) ∧ host, path and raw query equal to b's ∧ both parse) ∧ the result parses ∧ IsValidRedirectURI; the returned URL is the parse of raw / of the single registered URI; R2 IsValidRedirectURI is true only with IsRequestURL(String(u)) ∧ Fragment==\"\"; R3 in WriteAuthorizeError every redirect emission (Location header, form-post render) requires IsRedirectURIValid()==true, and IsRedirectURIValid is true only if the matcher accepts the request's own URI for its own client and IsValidRedirectURI holds; R4 the Location/form target in both writers is built only from String(GetRedirectURI(request)), url.Values.Encode() and constants; AuthorizeRequest.RedirectURI is written only from the matcher's result or a stored pushed request; R5 the code-flow authorize handler and the PAR handler store/issue only after the configured secure-transport checker accepted the redirect URI, and IsRedirectURISecure is false exactly for scheme http on a non-localhost host. NOT decided: URL-parser corner cases, look-alike hosts, what custom response-mode handlers do.",
+		Explanation: "Decided: R1 matcher shape — MatchRedirectURIWithClientRedirectURIs returns a non-nil URL only if (raw==\"\" ∧ exactly one registered URI ∧ it parses ∧ IsValidRedirectURI) or (raw≠\"\" ∧ some registered URI b with b == raw (string equality) or the loopback rule: scheme==http ∧ IsLoopback(ParseIP(host)) ∧ host, path and raw query equal to b's ∧ both parse) ∧ the result parses ∧ IsValidRedirectURI; the returned URL is the parse of raw / of the single registered URI; R2 IsValidRedirectURI is true only with IsRequestURL(String(u)) ∧ Fragment==\"\"; R3 in WriteAuthorizeError every redirect emission (Location header, form-post render) requires IsRedirectURIValid()==true, and IsRedirectURIValid is true only if the matcher accepts the request's own URI for its own client and IsValidRedirectURI holds; R4 the Location/form target in both writers is built only from String(GetRedirectURI(request)), url.Values.Encode() and constants; AuthorizeRequest.RedirectURI is written only from the matcher's result or a stored pushed request; R5 the code-flow authorize handler and the PAR handler store/issue only after the configured secure-transport checker accepted the redirect URI, and IsRedirectURISecure is false exactly for scheme http on a non-localhost host. IsLocalhost is true only for the name localhost, a name ending in .localhost or a loopback IP literal (no prefix or substring test). NOT decided: URL-parser corner cases, what custom response-mode handlers do.",
 	})
 }
 
@@ -412,4 +412,29 @@ func c11R5(c *Ctx) {
 	}
 	c.Check(ok, rule, "secure-checker", fn, "http-only-on-localhost", "IsRedirectURISecure is false exactly for scheme http on a host that is not localhost/loopback", "another result is possible", w)
 	_ = nF
+	// ... and "localhost/loopback" means: the host name is exactly localhost, ends in .localhost, or is a
+	// loopback IP literal — nothing looser (a prefix test would admit localhost.attacker.example)
+	if lf := c.P.Func(pkgRoot + ".IsLocalhost"); lf != nil {
+		lex := c.Explore(lf, ExploreConfig{}, "matcher")
+		if c.complete(lex, rule, "localhost-predicate", lf) {
+			hn := call(".Hostname", paramNamed(lf, 0))
+			okL, nT := true, 0
+			var wL *Path
+			for _, p := range lex.Paths {
+				if p.Kind != "return" || len(p.Rets) != 1 || p.Rets[0].Key() != tTrue.Key() {
+					if p.Kind == "return" && len(p.Rets) == 1 && p.Rets[0].Key() != tFalse.Key() {
+						okL, wL = false, p
+					}
+					continue
+				}
+				nT++
+				if !(p.Eq(hn, tStr("localhost")) || p.True(call("strings.HasSuffix", hn, tStr(".localhost"))) || p.True(call(".IsLoopback", call("net.ParseIP", hn)))) {
+					okL, wL = false, p
+				}
+			}
+			c.Check(okL && nT > 0, rule, "localhost-predicate", lf, "localhost-exact", "IsLocalhost is true only for the host name localhost, a name ending in .localhost, or a loopback IP literal", "true is returned for another host", wL)
+		}
+	} else {
+		c.RoleUnmatched(rule, "localhost-predicate", "fosite.IsLocalhost")
+	}
 }
